@@ -59,6 +59,13 @@ def enumerate_cases(tier):
         for op in ops:
             k += 1
             cells.append(dict(typ=typ, op=op, m=3, t=1, prss=bool(k % 2), coalition=[1 + (k // 2) % 2], n=n, seed=k))
+    # wide types (l > sec_param): masks must grow with l -- a mask of k bits only hides l <= k
+    for typ, ops in ((['int', 64], ['lt0', 'eq0', 'lsb', 'mod3', 'mod8', 'floordiv3', 'rshift2', 'to_bits8', 'izp',
+                                    'conv_int', 'max0']),
+                     (['fxp', 64, 32], ['fmul', 'flt0', 'ftrunc'])):
+        for op in ops:
+            k += 1
+            cells.append(dict(typ=typ, op=op, m=3, t=1, prss=bool(k % 2), coalition=[1 + (k // 2) % 2], n=n, seed=k))
     if tier == 'thorough':
         extra = []
         for c in cells:
@@ -125,6 +132,8 @@ def make_prog(typ, op, secret):
             z = a >> 2
         elif op == 'abs':
             z = abs(a)
+        elif op == 'to_bits8':
+            z = mpc.to_bits(a, 8)
         elif op in ('to_bits', 'fto_bits'):
             z = mpc.to_bits(a)
         elif op in ('izp', 'fizp'):
